@@ -291,27 +291,79 @@ def extract_formatter(X):
     for o in X.data.get("ops", []):
         if o["kind"] == "bin":
             by_text.setdefault(o["text"].upper(), o)
+    class Probe(F.Formatter):
+        def __init__(self):
+            super().__init__()
+            self.seen = []
+
+        def dispatch(self, json, prec=100):
+            if isinstance(json, str) and json in ("x1", "x2", "x3"):
+                self.seen.append(prec)
+            return super().dispatch(json, prec)
+
+    def behaviour(name):
+        """what an `Operator(...)` renderer does, measured: the text it joins with, the precedence it gives its
+        operands (two operands: left / right; three: all alike = its own precedence), and where it brackets itself.
+        None if the renderer does not behave like one."""
+        try:
+            p2 = Probe()
+            t2 = getattr(p2, name)(["x1", "x2"], 100)
+            p3 = Probe()
+            t3 = getattr(p3, name)(["x1", "x2", "x3"], 100)
+        except Exception:
+            return None
+        if len(p2.seen) != 2 or len(p3.seen) != 3 or len(set(p3.seen)) != 1:
+            return None
+        if not (t2.startswith("x1 ") and t2.endswith(" x2")):
+            return None
+        text = t2[3:-3]
+        if t3 != "x1 %s x2 %s x3" % (text, text):
+            return None
+        own = p3.seen[0]
+        lp, rp = p2.seen
+        if rp == own and lp == own:
+            ordered, chains = False, True
+        elif rp == own - 0.5 and lp == own + 0.5:
+            ordered, chains = True, True
+        elif rp == own - 0.5 and lp == own - 0.5:
+            ordered, chains = True, False
+        else:
+            return None
+        # brackets: bare above its own precedence, and at it exactly when unordered
+        for pr, bare in ((own + 0.5, True), (own, not ordered), (own - 0.5, False)):
+            out = getattr(Probe(), name)(["x1", "x2"], pr)
+            if (out == t2) != bare or (not bare and out != "(" + t2 + ")"):
+                return None
+        return {"text": text, "prec2": 2 * own, "ordered": ordered, "chains": chains}
+
     for name in sorted(vars(F.Formatter)):
         f = vars(F.Formatter)[name]
-        if not name.startswith("_") or not callable(f) or not getattr(f, "__closure__", None):
+        if not name.startswith("_") or name.startswith("__") or not callable(f):
             continue
-        cells = dict(zip(f.__code__.co_freevars, [c.cell_contents for c in f.__closure__]))
-        if "op_prec" not in cells or "op" not in cells:
+        cells = {}
+        if getattr(f, "__closure__", None):
+            cells = dict(zip(f.__code__.co_freevars, [c.cell_contents for c in f.__closure__]))
+        structural = None
+        if "op_prec" in cells and "op" in cells:
+            structural = {"text": str(cells["op"]).strip(), "prec2": 2 * cells["op_prec"], "ordered": bool(cells.get("ordered", True)),
+                          # `chains`: a op b op c is read as (a op b) op c; without it the left operand is isolated as well
+                          # (a source that has no such parameter behaves as chains=True)
+                          "chains": bool(cells.get("chains", True))}
+        if structural is None and not getattr(f, "__closure__", None):
+            continue            # a hand-written method: measured separately (HAND_OPS)
+        measured = behaviour(name)
+        explicit = structural is not None and all(k in cells for k in ("op", "op_prec", "ordered", "chains"))
+        if explicit and measured is not None and structural != measured:
+            X.problem("formatter", "renderer %s: its closure cells say %s, it behaves like %s" % (name, structural, measured))
+        # what the renderer DOES is the table; the closure cells are the twin that is compared when they are all there
+        row = measured or structural
+        if row is None:
             continue
-        text = str(cells["op"]).strip()
-        info = by_text.get(text.upper())
-        ops.append({
-            "name": name[1:],
-            "text": text,
-            "prec2": int(round(2 * cells["op_prec"])),
-            "ordered": bool(cells.get("ordered", True)),
-            # `chains`: a op b op c is read as (a op b) op c; without it the left operand is isolated as well
-            # (a source that has no such parameter behaves as chains=True)
-            "chains": bool(cells.get("chains", True)),
-            "key": info["key"] if info else None,
-        })
-        if 2 * cells["op_prec"] != int(round(2 * cells["op_prec"])):
+        if row["prec2"] != int(round(row["prec2"])):
             X.problem("formatter", "precedence of %s is not a multiple of 0.5" % name)
+        info = by_text.get(row["text"].upper())
+        ops.append({"name": name[1:], "text": row["text"], "prec2": int(round(row["prec2"])), "ordered": row["ordered"],
+                    "chains": row["chains"], "key": info["key"] if info else None})
     X.data["fmt_ops"] = ops
     X.data["fmt_methods"] = sorted(n for n in dir(F.Formatter) if n.startswith("_") and not n.startswith("__"))
     X.data["unordered_clauses"] = list(F.unordered_clauses)
